@@ -360,6 +360,9 @@ def oracle_c06(c, out):
     stages = m.get("stages")
     if not (0.0 <= s["final"] <= dt * (1 + 4e-16)):
         return f"final_time {s['final']!r} outside [0, time_step={dt!r}]"
+    if s["status"] in ("NotYetCalled", "Running") and dt > 0:
+        return (f"Solve(time_step={dt!r}) returned status {s['status']} with final_time {s['final']!r} and {st['steps']} attempts: the call reports no outcome "
+                f"and makes no progress, so the documented continuation loop (call Solve again with the remainder) never terminates")
     if s["status"] == "Converged":
         if abs(s["final"] - dt) > 8 * 2.220446049250313e-16 * dt:
             return f"status Converged but final_time {s['final']!r} != time_step {dt!r}" + (" (no progress: zero steps)" if st["steps"] == 0 else "")
@@ -550,11 +553,16 @@ def grp_trace_prefix(a, b):
 
 def finding_signature(pid, c, fail):
     m = c.meta or {}
-    if pid == "C06" and "no progress" in fail:
+    if pid == "C06" and m.get("integ") == 0 and fail.startswith("status Converged but final_time") and "(no progress: zero steps)" in fail \
+            and 0 < m.get("dt", 1.0) < 2.3e-16:
+        # exactly the recorded finding: Rosenbrock, time_step below round_off, Converged with zero steps
         return "rosenbrock:time_step_below_round_off"
-    if pid == "C10" and m.get("integ") == 0 and m.get("below_round_off"):
+    # only the recorded behaviour itself (Converged although a non-finite value went in / came out) is a known finding on
+    # these inputs; anything else on the same input -- a negative concentration, a crash -- is reported
+    c10_recorded = fail.startswith("status Converged with a non-finite concentration") or fail == "non-finite input reported as Converged"
+    if pid == "C10" and m.get("integ") == 0 and m.get("below_round_off") and c10_recorded and 0 < m.get("dt", 1.0) < 2.3e-16:
         return "rosenbrock:nonfinite_with_time_step_below_round_off"
-    if pid == "C10" and m.get("integ") == 0 and m.get("inf_not_consumed"):
+    if pid == "C10" and m.get("integ") == 0 and m.get("inf_not_consumed") and c10_recorded:
         return "rosenbrock:inf_in_species_not_consumed"
     if pid == "C16" and fail.startswith("three-argument Solve overload: data race on the shared solver's stored parameters"):
         return "tsan:three_argument_solve_stores_parameters"
@@ -2352,6 +2360,19 @@ def g_c08(r, tier, env, Ls):
             p["atol"] = r.pick([[1e-10, 1e-2], [1e-2, 1e-10]]); p["rtol"] = 1e-8
             p["k"] = [r.pick([1e-9, 1.0, 1.0, 3.0]) for _ in range(ncell)]
         cs.append(Case(problem_line(p, clamp=1, trace=0), dict(p), "solve", oracle=oracle_ros_accuracy, tags=["ros_accuracy", pname, "L=%d" % L]))
+    # ... and a NON-linear problem whose final state remembers a sub-microsecond transient: A -> B (k1) competing with
+    # A + A -> C (k2), k1 ~ 2 k2 A0 ~ 1e6..1e8 1/s; the default first step of 1e-6 s must be rejected and refined
+    for _ in range(30 if tier == "quick" else 600):
+        L = r.pick(Ls); ncell = r.rng(1, max(L, 1) + 1); pname = r.pick(ROS_NAMES)
+        ks = []; ys = []
+        for _c in range(ncell):
+            k1 = r.pick([1e6, 1e7, 1e8]) * r.logu(0.5, 2.0); A0 = r.logu(0.5, 2.0); k2 = k1 / (2.0 * A0) * r.logu(0.5, 2.0)
+            ks += [k1, k2]; ys += [A0, 0.0, 0.0]
+        p = dict(integ=0, L=L, csc=r.below(2), kind=r.below(4), ncell=ncell, ns=3, perm=r.shuffle(range(3)),
+                 rx=[([0], [(1, 1.0)]), ([0, 0], [(2, 1.0)])], k=ks, y=ys, atol=[1e-12] * 3, rtol=r.pick([1e-6, 1e-7, 1e-8]), dt=r.logu(1e-3, 1.0),
+                 ptoks=G.ros_param_tokens(env["ros"][pname], {}), pname=pname)
+        cs.append(Case(problem_line(p, clamp=1, trace=0), dict(p), "solve", oracle=oracle_ros_accuracy_branching,
+                       tags=["ros_accuracy_branching", pname, "L=%d" % L]))
     # "... tightening as tolerances tighten": the same A -> B problem at a loose and at a 10^4 times tighter tolerance
     for gid in range(20 if tier == "quick" else 400):
         L = r.pick(Ls); ncell = r.rng(1, 2 * max(L, 1) + 1); pname = r.pick(ROS_NAMES)
@@ -2403,6 +2424,32 @@ def oracle_ros_accuracy(c, out):
                 return (f"Converged, but species {'AB'[i]} in cell {cell} is {got!r}; the exact solution is {ex!r}: off by {abs(got - ex):.3e} = "
                         f"{abs(got - ex) / (m['atol'][i] + m['rtol'] * abs(ex)):.1f} x (atol + rtol|y|) after {nacc} accepted steps "
                         f"({m['pname']}, L={m['L']}, cells={m['ncell']}, atol={m['atol']}, rtol={m['rtol']})")
+    return None
+
+def oracle_ros_accuracy_branching(c, out):
+    """A -> B (k1), A + A -> C (k2):  A(t) = k1 A0 e / (k1 + 2 k2 A0 (1 - e)),  e = exp(-k1 t);
+    B(t) = k1/(2 k2) ln(1 + 2 k2 A0 (1 - e) / k1);  C = (A0 - A - B) / 2.  Same allowance as oracle_ros_accuracy."""
+    s = parse_solve(out or "")
+    if s is None:
+        return f"Solve did not return a result: '{(out or '')[:80]}'"
+    if s["status"] != "Converged":
+        return None
+    m = c.meta
+    nacc = max(1, s["stats"]["acc"])
+    perm = m["perm"]
+    for cell in range(m["ncell"]):
+        k1, k2 = m["k"][2 * cell], m["k"][2 * cell + 1]; A0 = m["y"][3 * cell]
+        em1 = -math.expm1(-k1 * m["dt"])                      # 1 - e
+        A = k1 * A0 * math.exp(-k1 * m["dt"]) / (k1 + 2 * k2 * A0 * em1)
+        B = k1 / (2 * k2) * math.log1p(2 * k2 * A0 * em1 / k1)
+        C = (A0 - A - B) / 2
+        for i, ex in enumerate((A, B, C)):
+            got = s["y"][3 * cell + i]
+            allow = 10.0 * nacc * (m["atol"][i] + m["rtol"] * abs(ex))
+            if abs(got - ex) > allow + 1e-12 * A0:
+                return (f"Converged, but species {'ABC'[i]} in cell {cell} is {got!r}; the exact solution of A->B, A+A->C is {ex!r}: off by "
+                        f"{abs(got - ex):.3e} = {abs(got - ex) / (m['atol'][i] + m['rtol'] * abs(ex)):.1f} x (atol + rtol|y|) after {nacc} accepted steps "
+                        f"({m['pname']}, L={m['L']}, k1={k1:.3g}, k2={k2:.3g}, rtol={m['rtol']}, time_step={m['dt']:.3g})")
     return None
 
 def oracle_be_linear(c, out):
